@@ -6,7 +6,7 @@ import itertools
 import multiprocessing
 import zlib
 import weakref
-from dataclasses import dataclass
+from dataclasses import dataclass, make_dataclass
 from common import args, Report, guarded
 
 from krrood.entity_query_language.predicate import Symbol
@@ -49,6 +49,18 @@ DEPTH = 5 if a.tier == "quick" else 6
 rep = Report("C13", f"all histories of <= {DEPTH} operations from [create A|B|C|D|V, drop oldest, drop newest, collect, query A, query B, query V, "
              "clear graph] (pruned: at most 4 creations), census comparison after every query", a.out)
 OPS = ["create A", "create B", "create D", "create V", "drop oldest", "drop newest", "collect", "query A", "query B", "query V", "clear"]
+# longer scripted histories (index reuse after a death between two others, subclasses defined after the graph exists)
+SCENARIOS = [
+    ["create B", "create B", "create B", "drop middle", "query A", "create B", "drop newest", "query A", "query B"],
+    ["create A", "create A", "create A", "create A", "drop middle", "drop middle", "query A", "create A", "create A", "drop newest", "query A"],
+    ["create B", "query A", "define L(B)", "create L", "query A", "query B", "query L"],
+    ["query A", "define L(A)", "create L", "query A", "define M(L)", "create M", "query A", "query L"],
+    ["create D", "define L(D)", "create L", "query A", "query B", "drop newest", "query A"],
+    ["create A", "clear", "define L(B)", "create L", "create B", "query A", "query B"],
+    ["create V", "create V", "drop oldest", "query V", "create V", "query V", "drop oldest", "query V"],
+    ["create B", "drop oldest", "create B", "query A", "drop oldest", "create B", "create B", "query B"],
+    ["create A", "create B", "create D", "drop oldest", "collect", "create A", "query A", "drop middle", "query A", "query B"],
+]
 
 
 def run(history):
@@ -57,9 +69,15 @@ def run(history):
     held = []          # strong refs held by the "user"
     census = []        # (weakref, class) of everything created since the last clear
     n = 0
+    classes = dict(CLASSES)
     for step, op in enumerate(history):
+        if op.startswith("define"):
+            name, base = op.split()[1].rstrip(")").split("(")
+            run.counter = getattr(run, "counter", 0) + 1
+            classes[name] = make_dataclass(f"{name}_{run.counter}", [("tag", int, 0)], bases=(classes[base],), eq=False)
+            continue
         if op.startswith("create"):
-            cls = CLASSES[op.split()[1]]
+            cls = classes[op.split()[1]]
             o = cls(n) if cls is not V else cls(0)
             n += 1
             held.append(o)
@@ -69,6 +87,8 @@ def run(history):
             held.pop(0)
         elif op == "drop newest" and held:
             held.pop()
+        elif op == "drop middle" and len(held) > 2:
+            held.pop(1)
         elif op == "collect":
             gc.collect()
         elif op == "clear":
@@ -76,7 +96,7 @@ def run(history):
             SymbolGraph()
             census = []
         elif op.startswith("query"):
-            cls = CLASSES[op.split()[1]]
+            cls = classes[op.split()[1]]
             gc.collect()       # the census is taken over what exists now
             want = [r() for r, c in census if r() is not None and issubclass(c, cls)]
             st, got = guarded(lambda: list(an(entity(let(cls, None))).evaluate()))
@@ -92,6 +112,8 @@ def run(history):
 
 
 def histories():
+    for h in SCENARIOS:
+        yield tuple(h)
     for d in range(1, DEPTH + 1):
         for h in itertools.product(OPS, repeat=d):
             if not h[-1].startswith("query"):
